@@ -1,7 +1,7 @@
 (* C01 — Address map: every address of a declared range decodes to exactly one rule whose destination is the owner's identity; addresses outside decode to nothing.
    Part 1: the certified checker that is evaluated (extracted) on the netlist the REAL floogen emitted
    is sound for the semantic statement C01_on over the hardware model Hw.v. *)
-From FV Require Import Base AddrRange RouteMap Netlist Hw Check CheckProofs Desc Build Compile Paths Routing Emit ModelProofs Examples.
+From FV Require Import Base AddrRange RouteMap Graph Netlist Hw Check CheckProofs Desc Build Compile Paths Routing Emit ModelProofs Examples.
 
 Theorem C01_checker_sound : forall n exp, chk_C01 n exp = [] -> C01_on n exp.
 Proof. exact chk_C01_sound. Qed.
